@@ -66,6 +66,10 @@ type c12result struct {
 }
 
 // runHistory applies evs to a fresh real sender; np peers, max receivers, ttl seconds.
+// transfers whose runTransfer tail was never reached (each costs a 2 s wait): the
+// run stops generating histories after a few of them
+var c12lostTails int
+
 func c12runHistory(evs []c12ev, np, max, ttl int) c12result {
 	v := app.VerifNewSender(max, time.Duration(ttl)*time.Second)
 	defer v.Close()
@@ -101,7 +105,12 @@ func c12runHistory(evs []c12ev, np, max, ttl int) c12result {
 		case "end":
 			executed = running[e.tid]
 			if running[e.tid] {
+				lostBefore := v.LostTails()
 				v.End(e.tid, e.ok)
+				if v.LostTails() > lostBefore {
+					c12lostTails++
+					addViol("transfer-tail-skipped", fmt.Sprintf("step %d (%v): the transfer function returned but runTransfer never reached its end (slot hand-over / re-dispatch) within 2 s", i, e))
+				}
 				delete(running, e.tid)
 				ended[e.tid] = true
 			}
@@ -273,6 +282,13 @@ func runC12(cfg config) *hx.Report {
 	id := 0
 	const ttl = 600
 	emit := func(evs []c12ev, np, max int, kind string) {
+		if c12lostTails >= 3 {
+			if c12lostTails == 3 {
+				c12lostTails++
+				rep.Notes = append(rep.Notes, "stopped generating histories after three transfers whose tail was never reached")
+			}
+			return
+		}
 		res := c12runHistory(evs, np, max, ttl)
 		id++
 		items := make([]string, len(evs))
